@@ -323,3 +323,17 @@ def c08d(ctx):
             ctx.check(locked and bool(inner) and n not in g.reachable(0, skip_edges=inner),
                       '%s.%s:init-under-lock-after-recheck' % (cname, ens),
                       'the database is initialised under the .init.lck lock after re-checking that it does not exist', fn, x)
+
+
+@rule('C08.e', floor=3)
+def c08e(ctx):
+    """the tile lock really excludes: release and acquisition discipline of the file lock (shared rules C07.b, C07.c, C07.g)"""
+    from ..engine import run_property
+    sub = run_property(ctx.repo, 'C07', ctx.tier, only={'C07.b', 'C07.c', 'C07.g'})
+    for er in sub.errors:
+        raise Undecided('shared rule %s: %s' % er)
+    for o in sub.obs:
+        if 'lock-site' in o.construct:
+            continue
+        (ctx.ok if o.status == 'ok' else ctx.bad)('%s:%s' % (o.rule, o.construct), o.msg, o.where)
+    ctx.stats['functions'] |= sub.stats['functions']
